@@ -968,7 +968,7 @@ def finish(c):
     fix_tags(c["type"])
     if mode == "parse":
         rq = c["req"]
-        for src, m in (("path", "path"), ("form", "form"), ("header", "header")):
+        for src, m in (("path", "path"), ("form", "form"), ("header", "header"), ("query", "form")):
             if rq.get(src) is not None:
                 rq[src] = sanitize_string_doc(m, rq[src])
         if rq.get("bodydoc") is not None:
@@ -1330,9 +1330,10 @@ def passes_of(c, obs):
         return [{"tag": tag, "kc": kc, "type": t, "doc": d, "val": project_val(c["type"], tag, val)}]
     rq = c["req"]
     dual = {int(i): t for i, t in (c.get("dual") or {}).items()}
+    entry = c.get("entry") or "Parse"
     res = []
-    for tag in PARSE_ORDER:
-        drop = {i for i, owner in dual.items() if owner != tag}
+    for tag in (PARSE_ORDER if entry == "Parse" else [ENTRY_TAG[entry]]):
+        drop = {i for i, owner in dual.items() if owner != tag} if entry == "Parse" else set()
         # a field tagged for several passes and supplied to none of the others (it is optional there and has
         # no default) is left untouched by them: it belongs to the pass that supplies it
         full_drop = {i for i in drop if c["type"]["f"][i].get("tags") and tag in c["type"]["f"][i]["tags"]}
@@ -1340,7 +1341,7 @@ def passes_of(c, obs):
         if tag == "path":
             d = rq.get("path") or dobj([])
         elif tag == "form":
-            d = form_doc(rq.get("form") or dobj([]))
+            d = form_doc(request_form(rq))
         elif tag == "header":
             d = header_doc(rq.get("header") or dobj([]))
         else:
@@ -1351,6 +1352,53 @@ def passes_of(c, obs):
         res.append({"tag": tag, "kc": PASS_KC[tag], "type": vt, "doc": d,
                     "val": project_val(c["type"], tag, val, full_drop)})
     return res
+
+
+ENTRY_TAG = {"ParseForm": "form", "GetFormValues": "form", "ParsePath": "path", "ParseHeaders": "header", "ParseJsonBody": "json"}
+
+
+def request_form(rq):
+    """what net/http puts into r.Form: the query parameters; with a posted form the posted values of a
+    name come first and the query's after them; with a multipart form the other way round"""
+    f = rq.get("form") or dobj([])
+    q = rq.get("query")
+    if not rq.get("postform") or not q or not q["o"]:
+        return f
+    merged, order = {}, []
+    for d in ((q, f) if rq.get("multipart") else (f, q)):
+        for kv in d["o"]:
+            vals = [kv["v"]] if "s" in kv["v"] else kv["v"]["a"]
+            if kv["k"] not in merged:
+                merged[kv["k"]] = []
+                order.append(kv["k"])
+            merged[kv["k"]] += vals
+    return dobj([(k, {"a": merged[k]}) for k in order])
+
+
+def completion_prone(d):
+    """recursiveValuer completes an object found under a name that an enclosing scope also holds as an
+    object — in place, in the caller's map (go-zero's configuration inheritance; observed, see notes):
+    a document in which two objects are stored under one member name"""
+    names = []
+
+    def walk(x):
+        if x and "o" in x:
+            for kv in x["o"]:
+                if "o" in kv["v"]:
+                    names.append(kv["k"].lower())
+                walk(kv["v"])
+        elif x and "a" in x:
+            for e in x["a"]:
+                walk(e)
+    walk(d)
+    return len(names) != len(set(names))
+
+
+def input_judged(c):
+    """is "the caller's input holds what it held before the call" demanded of this call?"""
+    if c["mode"] in ("key", "jsonmap", "keyvaluer", "okey", "dform"):
+        return not completion_prone(c.get("doc"))
+    return True
 
 
 def systematic(rng):
@@ -2773,6 +2821,160 @@ def parse_cases(rng, n):
     return cases
 
 
+# ---------------------------------------------------------------------------- round 4 generators
+
+EMPTY_POSITIONS = [["", "2"], ["2", ""], ["", "2", "3"], ["2", "", "3"], ["2", "3", ""], ["", "", "7"], ["", "7", ""],
+                   ["7", "", ""], ["", ""], [""], ["", "2", "", "3"], ["2", "3"]]
+TRANSPORTS = ["query", "postform", "multipart", "postform+query", "multipart+query"]
+REQUEST_ENTRIES = ["Parse", "ParseForm", "GetFormValues", "ParseHeaders", "ParsePath", "ParseJsonBody"]
+
+
+def shared_request(steps_of, rq, rid="r0", **kw):
+    """a sequence whose steps all look at ONE request object of the caller"""
+    steps = []
+    for entry, t, extra in steps_of:
+        st = {"mode": "parse", "type": copy.deepcopy(t), "req": copy.deepcopy(rq), "entry": entry, "reqid": rid, "mutate": True}
+        st.update(extra or {})
+        steps.append(st)
+    c = {"mode": "seq", "steps": steps}
+    c.update(kw)
+    return c
+
+
+def transported(rq, transport, split=None):
+    """send the form parameters of rq by the given transport; with "+query" the parameters named in
+    `split` travel in the URL and the others in the body"""
+    rq = copy.deepcopy(rq)
+    if transport == "query":
+        return rq
+    rq.pop("bodydoc", None)
+    rq.pop("body", None)
+    rq["postform"] = True
+    if transport.startswith("multipart"):
+        rq["multipart"] = True
+    if transport.endswith("+query"):
+        form = rq.get("form") or dobj([])
+        rq["query"] = dobj([(kv["k"], kv["v"]) for kv in form["o"] if kv["k"] in (split or ())])
+        rq["form"] = dobj([(kv["k"], kv["v"]) for kv in form["o"] if kv["k"] not in (split or ())])
+    return rq
+
+
+def reparse_corpus():
+    """ONE request looked at several times (a validator or middleware and then the handler; two
+    structs parsed out of one request), through every REST entry point in different orders; a
+    repeated parameter with empty values in every position, sent in the URL, as a posted form, as a
+    multipart form, or split between URL and body.  Every look must give what a fresh request gives
+    (the model knows no request object: each call is judged on the parameters the client sent), and
+    the request must hold afterwards what it held before (executor: `changed`)."""
+    i, st_ = P("int"), P("string")
+    full = St(multi("ids", Sl(i), {"form": O(opt=True)}), multi("tags", Sl(st_), {"form": O(opt=True)}),
+              multi("n", i, {"form": O(opt=True, range=R("[1:9]"))}), multi("name", st_, {"form": O(opt=True)}),
+              multi("id", i, {"path": None}), multi("X-Ids", Sl(st_), {"header": O(opt=True)}),
+              multi("b", i, {"json": O(opt=True)}))
+    filt = St(multi("ids", Sl(i), {"form": None}))
+    brk = St(multi("ids", Sl(i), {"form": O(opt=True)}), multi("tags", Sl(Ptr(st_)), {"form": O(opt=True)}))
+    cases = []
+    k = 0
+    for vals in EMPTY_POSITIONS:
+        for transport in TRANSPORTS:
+            k += 1
+            words = [{"2": "x", "3": "y", "7": "z"}.get(v, v) for v in vals]
+            rq = {"form": dobj([("ids", {"a": [ds(v) for v in vals]}), ("tags", {"a": [ds(w) for w in words]}),
+                                ("n", {"a": [ds(v) for v in vals]}), ("name", {"a": [ds("nm")]})]),
+                  "path": dobj([("id", ds("5"))]), "header": dobj([("X-Ids", {"a": [ds("a"), ds("b")]})]),
+                  "bodydoc": dobj([("b", dn("3"))])}
+            rq = transported(rq, transport, split=("ids", "name") if k % 2 else ("tags", "n"))
+            order = [("ParseForm", filt), ("Parse", full), ("Parse", full), ("GetFormValues", full), ("ParseForm", full),
+                     ("ParseHeaders", full), ("ParsePath", full), ("ParseJsonBody", full)]
+            order = order[k % 4:] + order[:k % 4]
+            steps = [(e, t, {"validator": "accept"} if (e == "Parse" and k % 3 == 0) else None) for e, t in order[:5]]
+            cases.append(finish(shared_request(steps, rq, intent="reparse", procs1=k % 5 == 0)))
+    # bracket notation, a caller that has looked at the form itself first, two requests taking turns
+    for vals in (["", "2", "3"], ["", "", "7"], ["2", "", "3"]):
+        for pre in (False, True):
+            rq = {"form": dobj([("ids[]", {"a": [ds(v) for v in vals]}), ("tags[]", {"a": [ds(v) for v in vals]})])}
+            steps = [(e, brk, {"preparse": pre}) for e in ("ParseForm", "GetFormValues", "Parse", "ParseForm")]
+            cases.append(finish(shared_request(steps, rq, intent="reparse")))
+        rq1 = {"form": dobj([("ids", {"a": [ds(v) for v in vals]})])}
+        rq2 = {"form": dobj([("ids", {"a": [ds(v) for v in reversed(vals)]})]), "postform": True}
+        a = shared_request([("ParseForm", filt, None)] * 3, rq1, rid="r0")["steps"]
+        b = shared_request([("Parse", filt, None)] * 3, rq2, rid="r1")["steps"]
+        cases.append(finish({"mode": "seq", "steps": [a[0], b[0], a[1], b[1], b[2], a[2]], "intent": "reparse"}))
+    return cases
+
+
+def with_empties(rng, d):
+    """a parameter document with empty values put in front of, between and behind the values"""
+    if d is None:
+        return d
+    for kv in d["o"]:
+        v = kv["v"]
+        vals = [v] if "s" in v else v["a"]
+        for _ in range(rng.choice([0, 1, 1, 2])):
+            vals = list(vals)
+            vals.insert(rng.randrange(len(vals) + 1), ds(""))
+        if rng.random() < 0.3 and vals:
+            vals = vals + [copy.deepcopy(rng.choice(vals))]
+        kv["v"] = {"a": vals}
+    return d
+
+
+def reparsed(rng, n):
+    """random requests of the httpx.Parse family, each looked at 2-5 times through randomly chosen
+    entry points on the same request object, empty values in random positions of the form parameters"""
+    cases = []
+    for c in parse_cases(rng, 3 * n):
+        if len(cases) >= n:
+            break
+        if c.get("dual"):
+            continue
+        rq = c["req"]
+        rq["form"] = with_empties(rng, rq.get("form"))
+        if rq.get("postform") and rng.random() < 0.5:
+            rq["multipart"] = True
+            if any(not all(32 < ord(ch) < 127 and ch not in '"\\' for ch in kv["k"]) for kv in (rq.get("form") or dobj([]))["o"]):
+                rq["multipart"] = False
+        entries = [rng.choice(REQUEST_ENTRIES) for _ in range(rng.choice([2, 3, 3, 4, 5]))]
+        if "Parse" not in entries:
+            entries[rng.randrange(len(entries))] = "Parse"
+        steps = [(e, c["type"], {"validator": c.get("validator") if e == "Parse" else rng.choice([None, "accept"]),
+                                 "preparse": False}) for e in entries]
+        sq = shared_request(steps, rq, intent="reparse-random", procs1=rng.random() < 0.2)
+        if rng.random() < 0.3:
+            for st in sq["steps"]:
+                st["preparse"] = True
+        cases.append(finish(sq))
+    return cases
+
+
+def reused_inputs(rng, n):
+    """core/mapping entry points that take a map / bytes of the caller: the SAME object handed in two
+    or three times (and a second object in between), the caller overwriting its targets between the
+    calls; every call gives what a fresh input gives and the input holds afterwards what it held"""
+    g = Gen(rng, "quick")
+    cases = []
+    tries = 0
+    while len(cases) < n and tries < 30 * n:
+        tries += 1
+        mode = rng.choice(["key", "jsonmap", "keyvaluer", "okey", "form", "path", "header", "json", "jsonreader", "yaml", "toml"])
+        gm = {"jsonmap": "json", "keyvaluer": "key", "okey": "key", "jsonreader": "json", "yaml": "json", "toml": "json"}.get(mode, mode)
+        a = g.case(mode=gm, depth=rng.choice([0, 1, 1, 2]))
+        b = g.case(mode=gm, depth=rng.choice([0, 1]))
+        if any(x.get("doc") is None or "o" not in x["doc"] for x in (a, b)):
+            continue
+        if mode in ("yaml", "toml") and not (tame(a["doc"]) and tame(b["doc"])):
+            continue
+        if completion_prone(a["doc"]) or completion_prone(b["doc"]):
+            continue
+
+        def step(x, rid):
+            return {"mode": mode, "type": copy.deepcopy(x["type"]), "doc": copy.deepcopy(x["doc"]), "reqid": rid, "mutate": True}
+        plan = rng.choice(["aa", "aba", "aab", "abab", "aaa"])
+        steps = [step(a if ch == "a" else b, "i0" if ch == "a" else "i1") for ch in plan]
+        cases.append(finish({"mode": "seq", "steps": steps, "intent": "reused-input", "procs1": rng.random() < 0.2}))
+    return cases
+
+
 class C08(Property):
     id = "C08"
     title = "Declarative validation: accepted input always satisfies the field constraints"
@@ -2878,7 +3080,7 @@ class C08(Property):
         if rc != 0 or len(res) != len(cases):
             raise ExecError("c08race rc=%s: %s" % (rc, out[-2000:]))
         one = lambda x: {"verdict": x["verdict"], "val": x.get("val"), "err": x.get("err", ""), "tag": x.get("tag", ""),
-                         "called": bool(x.get("called")), "alias": x.get("alias", "")}
+                         "called": bool(x.get("called")), "alias": x.get("alias", ""), "changed": x.get("changed", "")}
         obs = [{"verdict": "seq", "steps": [one(x) for x in r["steps"]]} for r in res]
         rs = vlib.coq_eval_cases(self.id, self.check_module, [self.coq_case(c, o) for c, o in zip(cases, obs)])
         bad = [(c, o) for c, o, (a, p) in zip(cases, obs, rs) if not p]
@@ -2938,14 +3140,17 @@ class C08(Property):
             {"mode": "httpx-header", "type": St(A(Ptr(St(F("p", P("uint8")), F("q", i, O(opt=True)))), True)),
              "doc": dobj([("p", ds("2")), ("q", ds("3"))])},
         ]
-        return [finish(c) for c in cs]
+        # one request looked at several times comes first (seeded C08-10)
+        return reparse_corpus() + [finish(c) for c in cs]
 
     def gen(self, rng, n, tier):
         # sequences first: a state leak between requests is then reported as a self-contained
         # sequence rather than as a later single request polluted by its predecessors
         big = tier == "thorough"
         _SALT[0] = 0
-        cases = crosskind(rng, 40 if not big else 400)
+        cases = reparsed(rng, 70 if not big else 700)
+        cases += reused_inputs(rng, 60 if not big else 600)
+        cases += crosskind(rng, 40 if not big else 400)
         cases += overlapping(rng, 60 if not big else 600)
         cases += scribbles(rng)
         cases += mutated_results(rng)
@@ -2990,11 +3195,13 @@ class C08(Property):
             w = {"id": i, "mode": c["mode"], "type": c["type"], "doc": c.get("doc"), "raw": c.get("raw"),
                  "direct": bool(c.get("direct")), "pad": int(c.get("pad") or 0), "repeat": c.get("repeat"),
                  "validator": c.get("validator"), "ctype": c.get("ctype"), "static": c.get("static") or "",
-                 "mutate": bool(c.get("mutate"))}
+                 "mutate": bool(c.get("mutate")), "entry": c.get("entry") or "", "reqid": c.get("reqid") or "",
+                 "preparse": bool(c.get("preparse"))}
             if c["mode"] == "parse":
                 rq = c["req"]
                 w["req"] = {"path": rq.get("path"), "form": rq.get("form"), "header": rq.get("header"),
-                            "body": rq.get("body"), "ctype": rq.get("ctype"), "postform": bool(rq.get("postform"))}
+                            "body": rq.get("body"), "ctype": rq.get("ctype"), "postform": bool(rq.get("postform")),
+                            "multipart": bool(rq.get("multipart")), "query": rq.get("query")}
             return w
 
         return wire
@@ -3024,7 +3231,7 @@ class C08(Property):
             if r.get("fail"):
                 raise ExecError("c08 executor: case %s: %s" % (r.get("id"), r["fail"]))
             one = lambda x: {"verdict": x["verdict"], "val": x.get("val"), "err": x.get("err", ""), "tag": x.get("tag", ""),
-                             "called": bool(x.get("called")), "alias": x.get("alias", "")}
+                             "called": bool(x.get("called")), "alias": x.get("alias", ""), "changed": x.get("changed", "")}
             if r["verdict"] == "seq":
                 obs.append({"verdict": "seq", "steps": [one(x) for x in r["steps"]]})
             else:
@@ -3052,7 +3259,13 @@ class C08(Property):
             # two positions of the target share one pointer: not a value of the type's value space at all
             # (writing through one position changes the other); judged like a crash
             verdict = "VPanic"
+        if obs.get("changed") and input_judged(case):
+            # the call wrote into an object of its caller (the request's form / header / URL / path variables /
+            # body, the input map or text): the next look at the same object sees values nobody supplied; judged like a crash
+            verdict = "VPanic"
         vd = case.get("validator") or case.get("self_validator")
+        if (case.get("entry") or "Parse") != "Parse":
+            vd = None           # the request validator belongs to httpx.Parse alone
         validator = "None" if vd is None else "(Some %s)" % cbool(vd == "accept")
         tags = clist(["(%s, %s, %s)" % (cstr(raw), cstr(key), copts(o)) for raw, key, o in claims])
         return "mkOCall %s %s %s %s %s" % (clist(ps), validator, cbool(bool(obs.get("called"))), verdict, tags)
@@ -3108,8 +3321,12 @@ class C08(Property):
 
     def describe_failure(self, case, obs):
         if case["mode"] == "seq":
+            extra = ["call %d: %s" % (i, o.get("changed") or o.get("alias")) for i, o in enumerate(obs["steps"])
+                     if o.get("changed") or o.get("alias")]
             return ("a request of a sequence served by one process was not decided on its own document alone "
-                    "(verdicts: %s)" % [o["verdict"] for o in obs["steps"]])
+                    "(verdicts: %s)%s" % ([o["verdict"] for o in obs["steps"]], "; " + "; ".join(extra[:3]) if extra else ""))
+        if obs.get("changed"):
+            return "the call changed an object of its caller: %s" % obs["changed"]
         if obs.get("alias"):
             return "accepted, but two positions of the target share storage: %s" % obs["alias"]
         if obs["verdict"] == "panic":
